@@ -559,12 +559,12 @@ class SCCWriter(BaseWriter):
         for index, (code, start, end) in enumerate(codes):
             code_words = len(code) / 5 + 8
             code_time_microseconds = code_words * MICROSECONDS_PER_CODEWORD
-            code_start = start - code_time_microseconds
-            if index == 0:
-                continue
-            previous_code, previous_start, previous_end = codes[index - 1]
-            if previous_end + 3 * MICROSECONDS_PER_CODEWORD >= code_start:
-                codes[index - 1] = (previous_code, previous_start, None)
+            # the first caption needs its transmission time as well
+            code_start = max(start - code_time_microseconds, 0)
+            if index > 0:
+                previous_code, previous_start, previous_end = codes[index - 1]
+                if previous_end + 3 * MICROSECONDS_PER_CODEWORD >= code_start:
+                    codes[index - 1] = (previous_code, previous_start, None)
             codes[index] = (code, code_start, end)
 
         # PASS 3:
